@@ -9,7 +9,7 @@ from vf.props.c02 import site_of
 
 PROPERTY = 'C01'
 RULE = ('cases = (dialect, text) accepted by parse_sql: corpus statements, random grammar derivations (stratified over '
-        'statement kinds), accepted token mutations; judged: print does not raise, printed text is accepted, re-parsed '
+        'statement kinds), accepted token mutations, option-list statements (USING / SET / PARAMETERS) with string values over the characters that need escaping; judged: print does not raise, printed text is accepted, re-parsed '
         'tree structurally identical (reflection over every field) and to_tree-identical, printing idempotent, same '
         'for copy(); non-trivial = accepted and (>= 4 AST nodes or a quoted identifier / string literal / user '
         'parentheses / MindsDB command); distinct by whitespace-normalised text per dialect')
